@@ -12,7 +12,8 @@ package main
 //      (update, only the generation bumped), of the unchanged Endpoints (removed and created again with the same content
 //      in one batch: a plain update of equal subsets never passes the predicate of the watcher), of the unchanged Secret
 //      (update with identical data), of the Ingress (update with identical content), the removal of a Pod nobody refers
-//      to, the ConfigMap with identical data, and the IngressClass (answered by a full sync: counted, not judged);
+//      to, the ConfigMap with identical data, and the IngressClass (answered by a full sync: judged with the clause of the
+//      known finding reload-on-noop:full-sync-rebuilds-every-host);
 //   2. IN-CAPACITY endpoint changes, for every Endpoints object: the same addresses in another order, one address
 //      replaced by a new one, a readiness flip (there and back), one address added, one address removed.
 //
@@ -568,6 +569,9 @@ var c11worldCorpus = []string{
 	// re-creation and a no-op re-notification reloaded at random (found by this mode; repaired by 50e63a3)
 	"svc+e/api!http:80:8080+adm:81:adm!- cm~strict-host=true ing~e/i2@2!haproxy,-!-!c.local>/a/b:_:api:8080!a.local+b.local>tls1!api:80",
 	"svc+e/api!http:80:8080+adm:81:adm!- ep~e/api!10.1.2.1:r:api-1 cm~strict-host=true ing+e/i2@2!haproxy,-!-!c.local>/a/b:_:api:8080;d.local>/x:Prefix:api:80;e.local>/y:Prefix:api:80!a.local+b.local>tls1!api:80 sync",
+	// KNOWN FINDING reload-on-noop:full-sync-rebuilds-every-host: an IngressClass re-notified without any change forces a
+	// full sync; config.Clear() drops the committed state and Hosts keeps no ItemsDel(): every host is "added", reload
+	"cls+hap:haproxy-ingress.github.io/controller svc+d/app!http:80:8080!- ep~d/app!10.0.1.1:r:app-1 ing+d/i1@1!-,hap!-!a.local>/:Prefix:app:80!-!- sync",
 	// a backend with per-path configuration (NeedACL): its committed version carries PathsDefaultHostMap, which
 	// backendsMatch does not neutralise - the pair never shrinks, the files are rewritten, HAProxy is not reloaded
 	"svc+d/app!http:80:8080!- ep~d/app!10.0.1.1:r:app-1 ing+d/i1@1!haproxy,-!ssl-redirect=false!_>/a:Prefix:app:80!-!- ing+d/i2@2!haproxy,-!ssl-redirect=true!_>/b:Prefix:app:80!-!- sync",
